@@ -12,11 +12,12 @@ under its own ID) -/
 theorem plugins_emit_own_id (pc : PluginCfg) (fileName : Str) :
     ∀ c ∈ pluginChecks pc fileName, IsPlugin c := by
   intro c hc
-  simp only [pluginChecks, Plugins.miscChecks, Plugins.shellChecks, Plugins.cryptoChecks, Plugins.trojanChecks, List.mem_append,
+  simp only [pluginChecks, Plugins.miscChecks, Plugins.shellChecks, Plugins.cryptoChecks, Plugins.trojanChecks, Plugins.injectChecks,
+    Plugins.injectChecksWith, List.mem_append,
     List.mem_cons, List.not_mem_nil, or_false] at hc
   -- one alternative per registered check, whatever their number
   repeat' (refine Or.elim hc ?_ ?_ <;> clear hc <;> intro hc)
-  all_goals (subst hc; exact isPlugin_plugin _ _ _ _)
+  all_goals (subst hc; first | exact isPlugin_plugin _ _ _ _ | exact isPlugin_pluginPos _ _ _ _)
 
 /-- **Restriction = filter (partial).**  For every file, nosec map, plugin configuration, tables and
 selection: the events (findings and nosec-withheld findings) of the scan restricted to the IDs in
